@@ -26,6 +26,8 @@ CONTRACTS = [
     ("deal.safe(message='m')", 'CCall (CAttr "deal" "safe") true true []', 'unsupported'),
     ('deal.has', 'CAttr "deal" "has"', 'unsupported'), ('deal.raises', 'CAttr "deal" "raises"', 'unsupported'), ('deal.pre', 'CAttr "deal" "pre"', 'unsupported'),
     ('deal.chain', 'CAttr "deal" "chain"', 'unsupported'), ('deal.ensure', 'CAttr "deal" "ensure"', 'unsupported'),
+    # attributes of deal that module_load does not accept are not even looked up
+    ('deal.pre(1)', 'CCall (CAttr "deal" "pre") true false []', 'unsupported'),
     ('deal.introspection.unwrap', 'CNested', 'crash'), ("deal.has(markers='io')", 'CCall (CAttr "deal" "has") true true []', 'unsupported:TypeError?'),
 ]
 
@@ -109,6 +111,8 @@ def monitor(acts, metas, obs):
     if len(steps) != len(acts): return [('harness/observation error: ' + obs[:200], None)]
     enabled, active = True, False
     for a, m, st in zip(acts, metas, steps):
+        if f' enabled={int(enabled if a[0] != "enabled" else a[1])}' not in st and a[0] != 'enabled':
+            out.append((f'the contract switch changed during {a[0]}: {st} (expected enabled={int(enabled)})', None)); break
         if a[0] == 'activate':
             want = enabled and not active
             if st.split(' ')[0] != f'activate={int(want)}': out.append((f'activate returned {st}; expected {int(want)} (idempotent, inert when disabled)', None)); break
@@ -168,7 +172,19 @@ def monitor(acts, metas, obs):
     return out
 
 
+def no_call_probe(fr):
+    """scanning a declaration never calls a function of deal that is no contract: deal.module_load(deal.disable()) is rejected and the switch stays on"""
+    acts = [['activate'], ['import', 'c20_nocall', "import deal\ndeal.module_load(deal.disable())\nc20_done = 1\n", 'module'], ['import', 'c20_after', "import deal\ndeal.module_load(deal.has())\nprint('x')\nc20_done = 1\n", 'module']]
+    obs = impl.run_impl('c20_imports.py', [acts])[0]
+    want = 'activate=1 active=1 enabled=1|import c20_nocall=RuntimeError registered=0 active=1 enabled=1|import c20_after=SilentContractError registered=0 active=1 enabled=1'
+    fr.evaluations += 1; fr.add_nontrivial({'no-call-probe': 1})
+    if obs != want:
+        fr.violations.append({'scenario': {'actions': acts}, 'impl': obs, 'signature': None,
+                              'what': f'a declaration naming a function of deal that is no contract must be rejected without calling it; observed {obs}; expected {want}'})
+
+
 def run(ctx, fr, model_available=True):
+    no_call_probe(fr)
     rnd = random.Random(ctx.seed * 3 + 20)
     cases = [gen_case(rnd, k) for k in range(1200 if ctx.tier == 'thorough' else 200)]
     res = impl.run_impl('c20_imports.py', [c[0] for c in cases])
